@@ -963,7 +963,7 @@ fn run(a: &Args) {
                 None
             }
             // what C06 demands of the shape of the source (the Lean driver prints what T1 read from it)
-            ["k-shape"] => Some("none-arm-polls-stop=1 run-breaks-on-stopping=1 stop-sends-eagerly=1 await-guard=graceful mux-hands-on-cmd-rx=1 default-timeout=30 default-conns=25600 builder-starts-from-default=1".into()),
+            ["k-shape"] => Some("none-arm-polls-stop=1 run-breaks-on-stopping=1 stop-sends-eagerly=1 await-guard=graceful mux-hands-on-cmd-rx=1 default-timeout=30 default-conns=25600 builder-starts-from-default=1 stop-drops-undelivered=1 join-waits-for-all=1".into()),
             ["k-total", v] => Some(match num(v) {
                 Some(v) => match catch(|| actix_server::verif::kernel_counter_total(v)) {
                     Ok(t) => t.to_string(),
@@ -1218,9 +1218,11 @@ mod srvlevel {
         stop: &'static str,   // resolved | dropped | never
         server: &'static str, // resolved | never
         second: &'static str, // resolved | never | -
+        late_stop: Option<&'static str>, // a stop() called after the Server future has resolved: resolved | never | unknown
         early: Vec<String>,
         late: bool,
         served_after: bool,
+        left_open: Vec<usize>, // forced stop: connections in progress that the server never closed
     }
 
     fn is_port_error(e: &std::io::Error) -> bool {
@@ -1234,6 +1236,7 @@ mod srvlevel {
         holds: Vec<Option<u64>>,
         second: Vec<bool>,
         gap2: u64,
+        late: Option<bool>, // `late=g|f`: one more stop() after everything has completed (its future must resolve, too)
         dropfut: bool,
         paused: bool,
     }
@@ -1268,12 +1271,18 @@ mod srvlevel {
         if workers == 0 || workers > 64 || holds.len() > 64 || timeout.is_some_and(|t| t > 10) || second.len() > 4 || gap2 > 5000 {
             return None;
         }
-        Some(Scn { workers, timeout, graceful, holds, second, gap2, dropfut: kv(ws, "drop") == Some("1"), paused: kv(ws, "paused") == Some("1") })
+        let late = match kv(ws, "late") {
+            None => None,
+            Some("g") => Some(true),
+            Some("f") => Some(false),
+            _ => return None,
+        };
+        Some(Scn { workers, timeout, graceful, holds, second, gap2, late, dropfut: kv(ws, "drop") == Some("1"), paused: kv(ws, "paused") == Some("1") })
     }
 
     async fn scenario(sc: &Scn) -> Outcome {
         use tokio::io::AsyncReadExt;
-        let mut out = Outcome { setup: None, stop: "never", server: "never", second: "-", early: vec![], late: false, served_after: false };
+        let mut out = Outcome { setup: None, stop: "never", server: "never", second: "-", late_stop: None, early: vec![], late: false, served_after: false, left_open: vec![] };
         let served = Arc::new(AtomicUsize::new(0));
         let nonce: [u8; 8] = {
             static SEQ: AtomicUsize = AtomicUsize::new(0);
@@ -1436,6 +1445,19 @@ mod srvlevel {
         } else {
             "never"
         };
+        // a stop() called when the shutdown is over and the Server future has resolved: nobody is there to take the command,
+        // its future resolves all the same (at once)
+        if let Some(g3) = sc.late {
+            out.late_stop = Some(if t_server.is_none() {
+                "unknown"
+            } else {
+                tokio::time::sleep(Duration::from_millis(100)).await;
+                match tokio::time::timeout(Duration::from_millis(4000), handle.stop(g3)).await {
+                    Ok(()) => "resolved",
+                    Err(_) => "never",
+                }
+            });
+        }
         // nothing is served after completion: a probe presenting our nonce must not be counted by OUR service
         // (whoever answers on that port now — nobody, or a stranger that got the port — is not our concern)
         if t_server.is_some() {
@@ -1446,6 +1468,18 @@ mod srvlevel {
             tokio::time::sleep(Duration::from_millis(50)).await;
             if served.load(Ordering::SeqCst) > served_before {
                 out.served_after = true;
+            }
+        }
+        // a forced stop tells every worker to stop at once; a worker that stops takes its connections with it: a connection
+        // that its client never lets go of is closed by the server (one-sided: 5 s after the shutdown has completed)
+        if !sc.graceful && t_server.is_some() {
+            let t = Instant::now();
+            loop {
+                out.left_open = (0..client_tasks.len()).filter(|i| sc.holds[*i].is_none() && !client_tasks[*i].is_finished()).collect();
+                if out.left_open.is_empty() || t.elapsed() > Duration::from_secs(5) {
+                    break;
+                }
+                tokio::time::sleep(Duration::from_millis(25)).await;
             }
         }
         finish.notify_waiters();
@@ -1524,18 +1558,25 @@ mod srvlevel {
         if o.second == "never" {
             fails.push("the future of the second stop() did not resolve".into());
         }
+        if o.late_stop == Some("never") {
+            fails.push("the future of a stop() called after the shutdown had completed and the Server future had resolved did not resolve within 4 s: stop always completes — the command cannot be delivered any more, its completion channel has to go with it".into());
+        }
         fails.extend(o.early.iter().cloned());
         if o.served_after {
             fails.push("a connection was served after the shutdown completed".into());
         }
+        if !o.left_open.is_empty() {
+            fails.push(format!("[C06,C01] forced stop: connection(s) {:?}, in progress when stop(false) was called, were still open and served 5 s after the shutdown had completed and the Server future had resolved: their worker was never stopped (every worker is sent Stop, graceful or not)", o.left_open));
+        }
         format!(
-            "stop={} server={} second={} early={} late={} after={}",
+            "stop={} server={} second={} early={} late={} after={}{}",
             o.stop,
             o.server,
             o.second,
             (!o.early.is_empty()) as u8,
             o.late as u8,
-            if o.served_after { "served" } else { "none" }
+            if o.served_after { "served" } else if !o.left_open.is_empty() { "open" } else { "none" },
+            o.late_stop.map_or(String::new(), |l| format!(" late-stop={l}"))
         )
     }
 
@@ -1587,7 +1628,7 @@ mod srvlevel {
         // several repetitions: the worst outcome is reported
         let mut worst: Option<&Outcome> = None;
         for o in &outs {
-            let bad = o.setup.is_some() || !o.early.is_empty() || o.late || o.served_after || o.stop == "never" || o.server == "never" || o.second == "never";
+            let bad = o.setup.is_some() || !o.early.is_empty() || o.late || o.served_after || o.stop == "never" || o.server == "never" || o.second == "never" || o.late_stop == Some("never") || !o.left_open.is_empty();
             if bad || worst.is_none() {
                 worst = Some(o);
                 if bad {
@@ -1819,6 +1860,14 @@ mod srvlevel {
             Some("fail") => true,
             _ => return (line.to_string(), "bad-op".into(), vec![]),
         };
+        // `stop=f|g` (kind=pending): the second connection is queued at the worker (its service is not ready) when the server is
+        // stopped: it is released — closed, never served, also when the service becomes ready afterwards (C01, C06)
+        let stop_mode = match kv(&ws, "stop") {
+            None => None,
+            Some("f") if !fail => Some(false),
+            Some("g") if !fail => Some(true),
+            _ => return (line.to_string(), "bad-op".into(), vec![]),
+        };
         let rt = tokio::runtime::Builder::new_current_thread().enable_all().build().unwrap();
         let mut fails = vec![];
         let obs = rt.block_on(async {
@@ -1872,6 +1921,41 @@ mod srvlevel {
                 let _ = sh2;
                 r
             });
+            if let Some(graceful) = stop_mode {
+                tokio::time::sleep(Duration::from_millis(400)).await; // accepted, dispatched, queued at the worker
+                let stopped = tokio::time::timeout(Duration::from_secs(8), handle.stop(graceful)).await.is_ok();
+                let _ = tokio::time::timeout(Duration::from_secs(5), srv_done).await;
+                // the queued connection is closed (its client reads end-of-file / reset): 5 s, one-sided
+                let (released, a2) = match tokio::time::timeout(Duration::from_secs(5), second).await {
+                    Ok(r) => (true, r.ok().flatten()),
+                    Err(_) => (false, None),
+                };
+                // … and stays unserved when the service becomes ready after the shutdown
+                let before = shared.calls.lock().unwrap().len();
+                shared.set_gate(G_READY);
+                tokio::time::sleep(Duration::from_millis(600)).await;
+                let calls = shared.calls.lock().unwrap().clone();
+                let after = calls.len() - before;
+                if !stopped {
+                    fails.push("[C06] the stop() future did not resolve within 8 s".into());
+                }
+                if !released || a2.is_some() || after != 0 || before != 1 {
+                    fails.push(format!(
+                        "[C01,C06] a connection queued at a worker whose service was not ready when stop({graceful}) was called was not released: {} 5 s after the shutdown had completed; service calls before the stop: {before}, after it (the service became ready again): {after} — the worker was never stopped, or kept its queue",
+                        if released { if a2.is_some() { "it was answered" } else { "closed" } } else { "still open" }
+                    ));
+                }
+                let g = |x: usize| if x == G_READY { 'R' } else if x == G_PENDING { 'P' } else { 'E' };
+                return format!(
+                    "calls={} answers={}{} stop={} released={} called-after={}",
+                    calls.iter().take(before).map(|(i, x)| format!("{i}{}", g(*x))).collect::<Vec<_>>().join(","),
+                    a1.map_or('-', |b| b as char),
+                    a2.map_or('-', |b| b as char),
+                    if stopped { "resolved" } else { "never" },
+                    released as u8,
+                    after
+                );
+            }
             if !fail {
                 // it has to wait; 400 ms later the gate opens
                 tokio::time::sleep(Duration::from_millis(400)).await;
@@ -1919,6 +2003,15 @@ mod srvlevel {
         /// 0: nobody; KILL_ANY: whichever instance is called next; g: instance g at its next call
         kill_target: AtomicUsize,
         killed_gens: std::sync::Mutex<Vec<usize>>,
+        /// instance g dies at its next `poll_ready` (0: nobody) — `ready_panics`: by a panic there; otherwise `poll_ready`
+        /// answers Err and the factory's next `new_service` fails as well (the worker gives up: "Can not restart service")
+        ready_target: AtomicUsize,
+        ready_panics: std::sync::atomic::AtomicBool,
+        fail_factory: std::sync::atomic::AtomicBool,
+        /// the waker each instance saw at its last `poll_ready` (to have an idle worker polled)
+        wakers: std::sync::Mutex<Vec<(usize, std::task::Waker)>>,
+        /// the service of a worker killed in `call` is slow to tear down (2.5 s)
+        slow_teardown: std::sync::atomic::AtomicBool,
     }
 
     const KILL_ANY: usize = usize::MAX;
@@ -1934,7 +2027,23 @@ mod srvlevel {
         type Error = ();
         type Future = futures_core::future::LocalBoxFuture<'static, Result<(), ()>>;
 
-        actix_service::always_ready!();
+        fn poll_ready(&self, cx: &mut std::task::Context<'_>) -> std::task::Poll<Result<(), ()>> {
+            {
+                let mut w = self.shared.wakers.lock().unwrap();
+                w.retain(|x| x.0 != self.gen);
+                w.push((self.gen, cx.waker().clone()));
+            }
+            let t = self.shared.ready_target.load(Ordering::SeqCst);
+            if t == self.gen && self.shared.ready_target.compare_exchange(t, 0, Ordering::SeqCst, Ordering::SeqCst).is_ok() {
+                self.shared.killed_gens.lock().unwrap().push(self.gen);
+                if self.shared.ready_panics.load(Ordering::SeqCst) {
+                    panic!("verif: instance {} panics in poll_ready on purpose", self.gen);
+                }
+                self.shared.fail_factory.store(true, Ordering::SeqCst);
+                return std::task::Poll::Ready(Err(()));
+            }
+            std::task::Poll::Ready(Ok(()))
+        }
 
         fn call(&self, mut stream: actix_rt::net::TcpStream) -> Self::Future {
             use tokio::io::AsyncWriteExt;
@@ -1966,7 +2075,7 @@ mod srvlevel {
 
     impl Drop for FaultySvc {
         fn drop(&mut self) {
-            if self.killed.get() {
+            if self.killed.get() && self.shared.slow_teardown.load(Ordering::SeqCst) {
                 // slow teardown of the service of the faulted worker
                 std::thread::sleep(Duration::from_millis(2500));
             }
@@ -2024,13 +2133,59 @@ mod srvlevel {
             Some("1") => true,
             _ => return (line.to_string(), "bad-op".into(), vec![]),
         };
-        if (with_stop && (!exact || pair)) || (dropsrv && (!exact || with_stop || pair || faults != 1)) {
+        // `kill=call|ready|restart`: how the (first) worker dies — its service panics in `call` (default) / panics in
+        // `poll_ready` / answers Err in `poll_ready` and its factory fails to make another one (the worker gives up);
+        // `busystop=1`: worker 0 dies (nobody has noticed: nothing is dispatched to it afterwards), a connection is in progress
+        // on worker 1, graceful stop: it waits for worker 1 although worker 0's stop channel is dead (C06);
+        // `hold=1` (workers=1 limit=1 kill=ready): the only worker dies while saturated by a connection that stays open:
+        // the connections of a dead worker die with it, their release is how a saturated dead worker is found (C08)
+        let kill = match kv(&ws, "kill") {
+            None | Some("call") => 0u8,
+            Some("ready") => 1,
+            Some("restart") => 2,
+            _ => return (line.to_string(), "bad-op".into(), vec![]),
+        };
+        let busystop = match kv(&ws, "busystop") {
+            None => false,
+            Some("1") => true,
+            _ => return (line.to_string(), "bad-op".into(), vec![]),
+        };
+        let hold = match kv(&ws, "hold") {
+            None => false,
+            Some("1") => true,
+            _ => return (line.to_string(), "bad-op".into(), vec![]),
+        };
+        // `sat=1` (limit=1): worker 0 saturated by a held connection (alive), worker 1 dies in `call` (its guard is released, it is
+        // marked available again): the next connection finds the cursor on the saturated worker and the only available worker
+        // dead — it is force-sent to the live worker, not dropped (C01)
+        let sat = match kv(&ws, "sat") {
+            None => false,
+            Some("1") => true,
+            _ => return (line.to_string(), "bad-op".into(), vec![]),
+        };
+        if sat && (workers != 2 || limit != Some(1) || kill != 0 || faults != 1 || with_stop || pair || dropsrv || busystop || hold) {
+            return (line.to_string(), "bad-op".into(), vec![]);
+        }
+        if (with_stop && (!exact || pair))
+            || (dropsrv && (!exact || with_stop || pair || faults != 1 || kill != 0))
+            || (busystop && (!exact || with_stop || pair || dropsrv || faults != 1 || kill != 0))
+            || (hold && (workers != 1 || limit != Some(1) || kill != 1 || faults != 1 || with_stop || pair || dropsrv || busystop))
+        {
             return (line.to_string(), "bad-op".into(), vec![]);
         }
         let rt = tokio::runtime::Builder::new_current_thread().enable_all().build().unwrap();
         let mut fails = vec![];
         let obs = rt.block_on(async {
-            let shared = Arc::new(FaultShared { instances: AtomicUsize::new(0), kill_target: AtomicUsize::new(0), killed_gens: Default::default() });
+            let shared = Arc::new(FaultShared {
+                instances: AtomicUsize::new(0),
+                kill_target: AtomicUsize::new(0),
+                killed_gens: Default::default(),
+                ready_target: AtomicUsize::new(0),
+                ready_panics: std::sync::atomic::AtomicBool::new(kill == 1),
+                fail_factory: std::sync::atomic::AtomicBool::new(false),
+                wakers: Default::default(),
+                slow_teardown: std::sync::atomic::AtomicBool::new(!busystop && !sat),
+            });
             let sh = shared.clone();
             let (handle, addr, mut srv_done, drop_srv) = match host_server_droppable(move || {
                 let lst = std::net::TcpListener::bind("127.0.0.1:0")?;
@@ -2045,6 +2200,9 @@ mod srvlevel {
                         actix_service::fn_factory(move || {
                             let sh = sh.clone();
                             async move {
+                                if sh.fail_factory.swap(false, Ordering::SeqCst) {
+                                    return Err(()); // the re-creation of a broken service fails as well
+                                }
                                 let gen = sh.instances.fetch_add(1, Ordering::SeqCst) + 1;
                                 Ok::<_, ()>(FaultySvc { gen, killed: std::cell::Cell::new(false), shared: sh })
                             }
@@ -2063,6 +2221,155 @@ mod srvlevel {
             answers.push(ask(addr, w).await);
             answers.push(ask(addr, w).await);
             let mut drop_srv = Some(drop_srv);
+            if sat {
+                std::mem::forget(drop_srv.take());
+                use tokio::io::AsyncReadExt;
+                tokio::time::sleep(Duration::from_millis(200)).await; // the two connections above are gone, both workers free
+                // c1: held (saturates the worker that takes it)
+                let mut heldc: Option<(tokio::net::TcpStream, u8)> = None;
+                if let Ok(mut c) = tokio::net::TcpStream::connect(addr).await {
+                    let _ = socket2::SockRef::from(&c).set_linger(Some(Duration::ZERO));
+                    let mut b = [0u8; 1];
+                    if let Ok(Ok(_)) = tokio::time::timeout(w, c.read_exact(&mut b)).await {
+                        heldc = Some((c, b[0]));
+                    }
+                }
+                tokio::time::sleep(Duration::from_millis(150)).await;
+                // c2: goes to the other worker, whose service panics in `call`
+                shared.kill_target.store(KILL_ANY, Ordering::SeqCst);
+                let killed = ask(addr, Duration::from_millis(1500)).await;
+                let died = shared.killed_gens.lock().unwrap().clone();
+                tokio::time::sleep(Duration::from_millis(300)).await;
+                // c3: must reach a service (the saturated live worker takes it)
+                let c3 = ask(addr, w).await;
+                let live = heldc.as_ref().map(|x| x.1 as char);
+                if heldc.is_some() && !died.is_empty() && c3.is_none() {
+                    fails.push(format!(
+                        "[C01,C08] a connection accepted while worker (instance {:?}) was saturated but alive and the only worker marked available (instance {:?}) had died was closed without reaching a service: it has to be handed to the live worker (max_concurrent_connections 1, 2 workers)",
+                        live, died
+                    ));
+                }
+                drop(heldc);
+                stop_bounded(&handle, srv_done).await;
+                return format!("held={} killed={} next-served={}", live.is_some() as u8, show(killed), c3.is_some() as u8);
+            }
+            if hold {
+                // ---- one worker, limit 1: the first connection above is gone; hold one (the worker is saturated), then the
+                // service panics in poll_ready (the worker is polled through the waker its service saw)
+                std::mem::forget(drop_srv.take());
+                use tokio::io::AsyncReadExt;
+                let mut heldc: Option<(tokio::net::TcpStream, u8)> = None;
+                if let Ok(mut c) = tokio::net::TcpStream::connect(addr).await {
+                    let _ = socket2::SockRef::from(&c).set_linger(Some(Duration::ZERO));
+                    let mut b = [0u8; 1];
+                    if let Ok(Ok(_)) = tokio::time::timeout(w, c.read_exact(&mut b)).await {
+                        heldc = Some((c, b[0]));
+                    }
+                }
+                let inst = heldc.as_ref().map_or(0usize, |x| (x.1 - b'0') as usize);
+                tokio::time::sleep(Duration::from_millis(150)).await;
+                shared.ready_target.store(inst, Ordering::SeqCst);
+                for (g, wk) in shared.wakers.lock().unwrap().iter() {
+                    if *g == inst {
+                        wk.wake_by_ref();
+                    }
+                }
+                let t = Instant::now();
+                while shared.killed_gens.lock().unwrap().is_empty() && t.elapsed() < Duration::from_secs(5) {
+                    tokio::time::sleep(Duration::from_millis(20)).await;
+                }
+                let died = !shared.killed_gens.lock().unwrap().is_empty();
+                // the next client must be greeted by a new instance while the first one still holds its connection
+                // (with a single worker the connection whose dispatch discovers the fault has nowhere to go: keep asking)
+                let t = Instant::now();
+                let mut next = None;
+                while t.elapsed() < Duration::from_secs(12) {
+                    next = ask(addr, Duration::from_millis(1500)).await;
+                    if matches!(next, Some(b) if (b - b'0') as usize > inst) {
+                        break;
+                    }
+                    tokio::time::sleep(Duration::from_millis(50)).await;
+                }
+                let replaced = shared.instances.load(Ordering::SeqCst) >= 2;
+                let served = matches!(next, Some(b) if (b - b'0') as usize > inst);
+                if died && !served {
+                    fails.push(format!(
+                        "[C08,C03] the only worker died (panic in poll_ready) while it was saturated by a connection that its client keeps open (max_concurrent_connections 1): within 12 s no later connection was served by a replacement (last answer: {:?}, factory instantiations: {}): the dead worker was never found — its connections must die with it, their release is what gets a saturated dead worker discovered",
+                        next.map(|b| b as char),
+                        shared.instances.load(Ordering::SeqCst)
+                    ));
+                }
+                drop(heldc);
+                stop_bounded(&handle, srv_done).await;
+                return format!("held={} died={} next-served={} replaced={}", (inst > 0) as u8, died as u8, served as u8, replaced as u8);
+            }
+            if busystop {
+                // ---- worker 0 dies, nobody notices; a connection in progress on worker 1; graceful stop
+                std::mem::forget(drop_srv.take());
+                use tokio::io::AsyncReadExt;
+                shared.kill_target.store(KILL_ANY, Ordering::SeqCst);
+                let killed = ask(addr, Duration::from_millis(1500)).await;
+                tokio::time::sleep(Duration::from_millis(150)).await;
+                let mut heldc: Option<(tokio::net::TcpStream, u8)> = None;
+                if let Ok(mut c) = tokio::net::TcpStream::connect(addr).await {
+                    let _ = socket2::SockRef::from(&c).set_linger(Some(Duration::ZERO));
+                    let mut b = [0u8; 1];
+                    if let Ok(Ok(_)) = tokio::time::timeout(w, c.read_exact(&mut b)).await {
+                        heldc = Some((c, b[0]));
+                    }
+                }
+                let Some((mut c, inst)) = heldc else {
+                    stop_bounded(&handle, srv_done).await;
+                    return format!("before={}{} killed={} held=-", show(answers[0]), show(answers[1]), show(killed));
+                };
+                tokio::time::sleep(Duration::from_millis(100)).await; // W1: let the accept thread count it
+                const HOLD_MS: u64 = 1500;
+                let t0 = Instant::now();
+                let stop_fut = handle.stop(true);
+                let watch = async {
+                    // Some(ms): the server closed the connection at ms; None: the client let go at HOLD_MS
+                    let release = tokio::time::sleep_until((t0 + Duration::from_millis(HOLD_MS)).into());
+                    tokio::pin!(release);
+                    let mut b = [0u8; 8];
+                    loop {
+                        tokio::select! {
+                            _ = &mut release => return None,
+                            r = c.read(&mut b) => match r {
+                                Ok(0) | Err(_) => return Some(t0.elapsed().as_millis()),
+                                Ok(_) => {}
+                            }
+                        }
+                    }
+                };
+                let cap = Duration::from_millis(STOP_T * 1000 + 7000);
+                let (t_stop, t_closed) = tokio::join!(async { tokio::time::timeout(cap, stop_fut).await.ok().map(|_| t0.elapsed().as_millis()) }, watch);
+                let need = (HOLD_MS as u128).min(STOP_T as u128 * 1000);
+                let mut early = false;
+                match t_stop {
+                    Some(ms) if ms + 60 < need => {
+                        early = true;
+                        fails.push(format!("[C06,C08] graceful stop completed after {ms} ms while a connection was still in progress on the live worker 1 (instance {}, held by its client until {HOLD_MS} ms; shutdown_timeout {} ms): worker 0 had died by a panic and was not yet replaced — a dead worker's stop channel answers at once, the stop must still wait for the others", inst as char, STOP_T * 1000));
+                    }
+                    Some(_) => {}
+                    None => fails.push("[C06] the stop() future did not resolve within its bound + 5 s".into()),
+                }
+                if let Some(ms) = t_closed {
+                    if ms + 60 < need {
+                        early = true;
+                        fails.push(format!("[C06,C08] the connection in progress on the live worker 1 was closed by the server {ms} ms into a graceful shutdown (shutdown_timeout {} ms) — worker 0 had died and was not yet replaced", STOP_T * 1000));
+                    }
+                }
+                let _ = tokio::time::timeout(Duration::from_secs(5), &mut srv_done).await;
+                return format!(
+                    "before={}{} killed={} held={} stop={} early={}",
+                    show(answers[0]),
+                    show(answers[1]),
+                    show(killed),
+                    inst as char,
+                    if t_stop.is_some() { "resolved" } else { "never" },
+                    early as u8
+                );
+            }
             if dropsrv {
                 // ---- the Server future goes away without a stop; then worker 0 dies; everything later belongs to worker 1
                 let _ = drop_srv.take().unwrap().send(());
@@ -2105,7 +2412,12 @@ mod srvlevel {
             }
             std::mem::forget(drop_srv.take());
             // kill w0 (its turn): the killing connection gets no answer
-            shared.kill_target.store(KILL_ANY, Ordering::SeqCst);
+            if kill == 0 {
+                shared.kill_target.store(KILL_ANY, Ordering::SeqCst);
+            } else {
+                // the worker whose turn it is: instance 1 (worker 0) — the connection wakes it, it asks its service first
+                shared.ready_target.store(1, Ordering::SeqCst);
+            }
             let killed = ask(addr, Duration::from_millis(1500)).await;
             let t_kill = Instant::now();
             tokio::time::sleep(Duration::from_millis(gap)).await;
@@ -2877,7 +3189,18 @@ mod gen {
             writeln!(w, "fault fp limit=1 faults=2 pair=1").unwrap();
             // the Server future is dropped without a stop, then a worker dies: the accept thread survives, the live worker serves
             writeln!(w, "fault fd dropsrv=1").unwrap();
+            // other ways to die: the service panics in poll_ready; poll_ready answers Err and the factory cannot make another
+            // one (the worker gives up) — found and replaced all the same; the only worker dies while saturated by a held connection
+            writeln!(w, "fault fk kill=restart").unwrap();
+            writeln!(w, "fault fh workers=1 limit=1 kill=ready hold=1").unwrap();
+            // a dead worker nobody has noticed + a busy live one + graceful stop (C06)
+            writeln!(w, "fault fb busystop=1").unwrap();
+            // one worker saturated and alive, the other dead but marked available: the next connection goes to the live one
+            writeln!(w, "fault fc limit=1 sat=1").unwrap();
             if thorough {
+                writeln!(w, "fault fk2 kill=ready").unwrap();
+                writeln!(w, "fault fk3 workers=1 kill=restart").unwrap();
+                writeln!(w, "fault fk4 kill=restart faults=2").unwrap();
                 writeln!(w, "fault fp2 faults=2 pair=1").unwrap();
                 writeln!(w, "fault fp3 limit=2 faults=2 pair=1").unwrap();
                 writeln!(w, "fault fd2 dropsrv=1 gap=600").unwrap();
@@ -2897,6 +3220,14 @@ mod gen {
             writeln!(w, "fault f0").unwrap();
             writeln!(w, "fault fs stop=1").unwrap();
             writeln!(w, "fault f2 faults=2").unwrap();
+            writeln!(w, "fault fc limit=1 sat=1").unwrap();
+            // a forced stop reaches every worker: a connection in progress is closed (not left open, not served on)
+            writeln!(w, "srv sf workers=2 timeout=5 mode=f holds=n,n").unwrap();
+            // … and so is a connection queued at a worker whose service is not ready (never served, not left open)
+            writeln!(w, "gate gs kind=pending stop=f").unwrap();
+            if thorough {
+                writeln!(w, "gate gs2 kind=pending stop=g").unwrap();
+            }
             c07_exhaustive(&mut *w, &mut rng, 1, if thorough { 4 } else { 3 }, "x1_");
             c07_arrivals(&mut *w, &mut rng, 2, 1);
             if thorough {
@@ -2967,6 +3298,7 @@ mod gen {
             writeln!(w, "case srvlevel n=1 timeout=0").unwrap();
             writeln!(w, "gate g0 kind=pending").unwrap();
             writeln!(w, "gate g1 kind=fail").unwrap();
+            writeln!(w, "gate gs kind=pending stop=f").unwrap();
             writeln!(w, "fault f0").unwrap();
             writeln!(w, "gate bad kind=x").unwrap();
             if thorough {
@@ -2995,6 +3327,8 @@ mod gen {
             };
             // a worker faults and is replaced; a connection is in progress on the REPLACEMENT; graceful stop must wait for it
             writeln!(w, "fault fs0 stop=1").unwrap();
+            // a worker is dead and nobody has noticed; a connection is in progress on the OTHER worker; graceful stop waits for it
+            writeln!(w, "fault fb0 busystop=1").unwrap();
             if thorough {
                 writeln!(w, "fault fs1 gap=600 stop=1").unwrap();
                 writeln!(w, "fault fs2 gap=50 stop=1").unwrap();
@@ -3016,6 +3350,9 @@ mod gen {
             // overlapping stops: the later ones are issued when the first has been taken off the channel; every future waits
             srv(&mut *w, "workers=1 timeout=5 mode=g holds=1500 second=g,f gap2=300");
             srv(&mut *w, "workers=2 timeout=2 mode=g holds=n,300 second=f,g gap2=400");
+            // one more stop() after the shutdown is over (the Server future has resolved): resolves at once
+            srv(&mut *w, "workers=1 timeout=1 mode=g holds=300 late=f");
+            srv(&mut *w, "workers=2 timeout=5 mode=f holds=n late=g second=g");
             // the default configuration (no shutdown_timeout call): 30 s, not less — the client ends its connection after 4.5 s
             srv(&mut *w, "workers=1 timeout=default mode=g holds=4500");
             writeln!(w, "sig d0 sig=term timeout=default hold=4500").unwrap();
